@@ -1,6 +1,7 @@
 package openapiv3
 
 import (
+	"encoding/json"
 	"fmt"
 	"strings"
 
@@ -11,7 +12,6 @@ import (
 	"github.com/pb33f/libopenapi/orderedmap"
 	yaml "go.yaml.in/yaml/v4"
 	"google.golang.org/protobuf/compiler/protogen"
-	k8syaml "sigs.k8s.io/yaml"
 
 	"github.com/SebastienMelki/sebuf/internal/annotations"
 )
@@ -969,8 +969,18 @@ func (g *Generator) Render() ([]byte, error) {
 		if err != nil {
 			return nil, fmt.Errorf("failed to marshal to YAML: %w", err)
 		}
-		// Then convert YAML to JSON
-		jsonData, err := k8syaml.YAMLToJSON(yamlData)
+		// Then convert YAML to JSON. The text is read back with the YAML 1.2 library that wrote it:
+		// a YAML 1.1 reader turns plain scalars such as n, no, yes or on into booleans, which
+		// corrupted property names and enum values in the JSON rendering.
+		var root yaml.Node
+		if err = yaml.Unmarshal(yamlData, &root); err != nil {
+			return nil, fmt.Errorf("failed to convert YAML to JSON: %w", err)
+		}
+		generic, err := yamlNodeToJSONValue(&root)
+		if err != nil {
+			return nil, fmt.Errorf("failed to convert YAML to JSON: %w", err)
+		}
+		jsonData, err := json.Marshal(generic)
 		if err != nil {
 			return nil, fmt.Errorf("failed to convert YAML to JSON: %w", err)
 		}
@@ -980,4 +990,69 @@ func (g *Generator) Render() ([]byte, error) {
 	default:
 		return yaml.Marshal(g.doc)
 	}
+}
+
+// yamlNodeToJSONValue converts a YAML node tree into plain Go values for json.Marshal.
+// Scalars are interpreted by their resolved YAML 1.2 tag; everything that is not a null,
+// boolean or number (including date-like strings such as 2024-01-15) stays a string.
+func yamlNodeToJSONValue(n *yaml.Node) (any, error) {
+	switch n.Kind {
+	case yaml.DocumentNode:
+		if len(n.Content) != 1 {
+			return nil, fmt.Errorf("unexpected YAML document with %d roots", len(n.Content))
+		}
+		return yamlNodeToJSONValue(n.Content[0])
+	case yaml.AliasNode:
+		return yamlNodeToJSONValue(n.Alias)
+	case yaml.MappingNode:
+		out := make(map[string]any, len(n.Content)/2)
+		for i := 0; i+1 < len(n.Content); i += 2 {
+			value, err := yamlNodeToJSONValue(n.Content[i+1])
+			if err != nil {
+				return nil, err
+			}
+			out[n.Content[i].Value] = value
+		}
+		return out, nil
+	case yaml.SequenceNode:
+		out := make([]any, 0, len(n.Content))
+		for _, item := range n.Content {
+			value, err := yamlNodeToJSONValue(item)
+			if err != nil {
+				return nil, err
+			}
+			out = append(out, value)
+		}
+		return out, nil
+	case yaml.ScalarNode:
+		switch n.ShortTag() {
+		case "!!null":
+			return nil, nil
+		case "!!bool":
+			var b bool
+			if err := n.Decode(&b); err != nil {
+				return nil, err
+			}
+			return b, nil
+		case "!!int":
+			var i int64
+			if err := n.Decode(&i); err == nil {
+				return i, nil
+			}
+			var u uint64
+			if err := n.Decode(&u); err != nil {
+				return nil, err
+			}
+			return u, nil
+		case "!!float":
+			var f float64
+			if err := n.Decode(&f); err != nil {
+				return nil, err
+			}
+			return f, nil
+		default:
+			return n.Value, nil
+		}
+	}
+	return nil, fmt.Errorf("unsupported YAML node kind %d", n.Kind)
 }
